@@ -367,3 +367,53 @@ Proof.
   intros C. pose proof (x_f_exact_outside_class lon_witness 3 ltac:(lia) F Dom (fun H => H C)) as E.
   rewrite M, X in E. discriminate.
 Qed.
+
+(* ---- the class x_rounding decided on the input (exact integer arithmetic on the float's dyadic value) ---- *)
+Definition x_rounding_b (lon : pfloat) (h : Z) : bool :=
+  match dyadic lon with
+  | Some (m, e) =>
+      let '(m, e) := if (m * 2 ^ e =? 180) && (0 <=? e) then (-180, 0)
+                     else if (e <? 0) && (m =? 180 * 2 ^ (- e)) then (-180, 0) else (m, e) in
+      let s := Z.min e (-49) in
+      let A := m * 2 ^ (e - s) + 180 * 2 ^ (- s) in          (* lon + 180      = A * 2^s *)
+      let d := 45 * 2 ^ (-49 - s) in                          (* 360 * 2^-52    = d * 2^s *)
+      let den := 360 * 2 ^ (- s) in
+      negb (((A - d) * 2 ^ h) / den =? ((A + d) * 2 ^ h) / den)
+  | None => false
+  end.
+
+Lemma band_edge (m e h sg : Z) : 0 <= h -> let s := Z.min e (-49) in
+  (bpow radix2 h * ((IZR m * bpow radix2 e + 180) / 360) + IZR sg * bpow radix2 (h - 52) =
+   IZR ((m * 2 ^ (e - s) + 180 * 2 ^ (- s) + sg * (45 * 2 ^ (-49 - s))) * 2 ^ h) / IZR (360 * 2 ^ (- s)))%R.
+Proof.
+  intros Hh s. assert (Hs : s <= e /\ s <= -49) by (unfold s; lia).
+  rewrite !mult_IZR, !plus_IZR, !mult_IZR, !IZR_pow2 by lia.
+  set (B := bpow radix2 s). assert (PB : (0 < B)%R) by apply bpow_gt_0.
+  assert (E1 : bpow radix2 (e - s) = (bpow radix2 e / B)%R) by (unfold Zminus, B; rewrite bpow_plus, bpow_opp; reflexivity).
+  assert (E2 : bpow radix2 (- s) = (/ B)%R) by (unfold B; apply bpow_opp).
+  assert (E3 : bpow radix2 (-49 - s) = (bpow radix2 (-49) / B)%R) by (unfold Zminus, B; rewrite bpow_plus, bpow_opp; reflexivity).
+  assert (E4 : bpow radix2 (h - 52) = (bpow radix2 h * bpow radix2 (-52))%R) by (rewrite <- bpow_plus; f_equal).
+  assert (E5 : bpow radix2 (-49) = (8 * bpow radix2 (-52))%R).
+  { replace (-49) with (3 + -52) by lia. rewrite bpow_plus. replace (bpow radix2 3) with 8%R by (simpl; lra). reflexivity. }
+  rewrite E1, E2, E3, E4, E5. field. lra.
+Qed.
+
+Theorem x_rounding_b_spec (lon : pfloat) (h : Z) : 0 <= h -> ffin lon = true ->
+  x_rounding_b lon h = true <-> x_rounding (fval lon) h.
+Proof.
+  intros Hh Fl. destruct (dyadic_val lon Fl) as (m & e & D & V). unfold x_rounding_b, x_rounding, ufrac. rewrite D.
+  pose proof (dyadic_fold m e) as Hf. cbv zeta in Hf. rewrite <- V in Hf.
+  destruct (if (m * 2 ^ e =? 180) && (0 <=? e) then (-180, 0)
+            else if (e <? 0) && (m =? 180 * 2 ^ (- e)) then (-180, 0) else (m, e)) as [m' e'].
+  cbn [fst snd] in Hf. rewrite Hf. cbv zeta.
+  set (s := Z.min e' (-49)). assert (Hs : s <= -49) by (unfold s; lia).
+  assert (Pd : 360 * 2 ^ (- s) <> 0) by (pose proof (pow2_pos (- s) ltac:(lia)); lia).
+  pose proof (band_edge m' e' h 1 Hh) as Ep. pose proof (band_edge m' e' h (-1) Hh) as Em. cbv zeta in Ep, Em. fold s in Ep, Em.
+  replace (IZR 1 * bpow radix2 (h - 52))%R with (bpow radix2 (h - 52)) in Ep by ring.
+  replace (bpow radix2 h * ((IZR m' * bpow radix2 e' + 180) / 360) + IZR (-1) * bpow radix2 (h - 52))%R
+    with (bpow radix2 h * ((IZR m' * bpow radix2 e' + 180) / 360) - bpow radix2 (h - 52))%R in Em by (simpl; ring).
+  rewrite Ep, Em, !Zfloor_div by exact Pd.
+  replace (m' * 2 ^ (e' - s) + 180 * 2 ^ (- s) + 1 * (45 * 2 ^ (-49 - s))) with (m' * 2 ^ (e' - s) + 180 * 2 ^ (- s) + 45 * 2 ^ (-49 - s)) by ring.
+  replace (m' * 2 ^ (e' - s) + 180 * 2 ^ (- s) + -1 * (45 * 2 ^ (-49 - s))) with (m' * 2 ^ (e' - s) + 180 * 2 ^ (- s) - 45 * 2 ^ (-49 - s)) by ring.
+  rewrite negb_true_iff, Z.eqb_neq. tauto.
+Qed.
